@@ -835,8 +835,8 @@ def rxc_stimulus(rng, mode, big):
     ideal = [J] * rng.range(4, 12)
     metas = []
     for _ in range(rng.range(2, 5)):
-        kind = rng.weighted([(6, "good"), (2, "violation"), (1, "truncated"), (1, "odd")])
-        if mode == "nominal" and kind in ("truncated", "odd"):
+        kind = rng.weighted([(6, "good"), (2, "violation"), (1, "truncated"), (1, "odd"), (2, "shortsync")])
+        if mode == "nominal" and kind in ("truncated", "odd", "shortsync"):
             kind = "good"
         p = gen_bytes(rng, 40 if big else 12)
         if kind == "good":
@@ -846,6 +846,9 @@ def rxc_stimulus(rng, mode, big):
         elif kind == "truncated":
             w = py_encode(p)
             w = w[:rng.range(1, len(w) - 3)] + [SE0, SE0, J]
+        elif kind == "shortsync":
+            # SYNC cut short by an SE0 when the packet detector has counted 4..6 zeros
+            w = py_encode(p)[:rng.range(4, 8)] + [SE0] * rng.range(1, 2) + [J]
         else:
             w = py_encode(p)
             cut = rng.range(1, 7)
